@@ -360,6 +360,67 @@ func vfRunRefuseStorm(c vfFaultCase, seed uint64) (o vfFaultOut) {
 	return
 }
 
+// vfRunBlackhole: the peer accepts the TCP connection but never answers the handshake (10 s handshake deadline per
+// attempt): Tell must still return at once, the messages are reported as dead letters once the attempts are used up, and
+// after the peer answers again later messages are delivered. Thorough tier only (30+ s).
+func vfRunBlackhole(c vfFaultCase, seed uint64) (o vfFaultOut) {
+	a, b, px, err := vfFaultPair(seed, c.Limit)
+	if err != nil {
+		o.inc = err.Error()
+		return
+	}
+	defer px.close()
+	px.setMode("blackhole")
+	toB := b.remoteSink(a)
+	done := make(chan struct{})
+	go func() {
+		defer close(done)
+		a.sys.Tell(toB, vfNewNetMsg(1, 1, 50, false))
+		a.sys.Tell(toB, vfNewNetMsg(1, 2, 50, false))
+	}()
+	// logical witness for "Tell returns promptly": it returns although no handshake answer can have arrived
+	select {
+	case <-done:
+	case <-time.After(5 * time.Second):
+		o.add("c14-tell-blocks-caller", "blackhole", "Tell to a peer that accepts the connection but never answers the handshake had not returned after 5 s (handshake deadline: 10 s)")
+	}
+	count := func() (per [3]int) {
+		a.obs.mu.Lock()
+		defer a.obs.mu.Unlock()
+		for _, d := range a.obs.dl {
+			for q := 1; q <= 2; q++ {
+				if d == fmt.Sprintf("vfNetMsg#1:%d", q) {
+					per[q]++
+				}
+			}
+		}
+		return
+	}
+	for end := time.Now().Add(time.Duration(c.Limit+1)*15*time.Second + 30*time.Second); time.Now().Before(end); time.Sleep(100 * time.Millisecond) {
+		if p := count(); p[1] > 0 && p[2] > 0 {
+			break
+		}
+	}
+	if p := count(); p[1] != 1 || p[2] != 1 {
+		o.add("c14-dead-letter-count", "blackhole", "2 messages to a peer that never answers the handshake (limit %d): dead letters per message %v, want exactly 1 each", c.Limit, p[1:])
+	}
+	px.setMode("asis")
+	px.closeConns()
+	for q := 3; q <= 14; q++ {
+		a.sys.Tell(toB, vfNewNetMsg(1, q, 50, false))
+		time.Sleep(50 * time.Millisecond)
+	}
+	vfWaitCount(b.sink, 12, 15*time.Second)
+	seqs := vfCheckSubsequence(b.sink.snapshot(), 1, 14, &o)
+	if len(seqs) == 0 || seqs[len(seqs)-1] != 14 {
+		o.add("c14-no-recovery", "blackhole", "after the peer answered handshakes again the later messages were not delivered: received %v of 3..14", seqs)
+	}
+	o.info = fmt.Sprintf("dead_letters=%v received_after_recovery=%v", count(), seqs)
+	_ = a.stop()
+	_ = b.stop()
+	return
+}
+
 // raw client speaking the wire protocol to B directly (frame injection)
 func vfRawDial(addr, advertise string) (net.Conn, error) {
 	c, err := net.DialTimeout("tcp", addr, 2*time.Second)
@@ -605,6 +666,9 @@ func vfFaultCases(thorough bool) []vfFaultCase {
 	for _, lim := range []int{0, 1, 3} {
 		cs = append(cs, vfFaultCase{Kind: "refuse", Limit: lim})
 	}
+	if thorough {
+		cs = append(cs, vfFaultCase{Kind: "blackhole", Limit: 0}, vfFaultCase{Kind: "blackhole", Limit: 1})
+	}
 	cs = append(cs, vfFaultCase{Kind: "refusestorm", Limit: 0}, vfFaultCase{Kind: "refusestorm", Limit: 1})
 	cs = append(cs, vfFaultCase{Kind: "inject"}, vfFaultCase{Kind: "oversize", Limit: 1}, vfFaultCase{Kind: "restart", Limit: 1}, vfFaultCase{Kind: "restart", Limit: 3})
 	return cs
@@ -629,6 +693,8 @@ func TestVerif_remotefaults(t *testing.T) {
 				return vfRunRefuse(c, seed)
 			case "refusestorm":
 				return vfRunRefuseStorm(c, seed)
+			case "blackhole":
+				return vfRunBlackhole(c, seed)
 			case "inject":
 				return vfRunInject(c, seed)
 			case "oversize":
